@@ -154,7 +154,11 @@ func GenValue(r *rand.Rand, tag int) []byte {
 	case 3:
 		return []byte{0}
 	case 4:
-		b := make([]byte, 1+r.Intn(40))
+		n := 1 + r.Intn(40)
+		if r.Intn(8) == 0 { // rarely a value of several hundred bytes or a few KiB (past small fixed-size scratch buffers)
+			n = []int{430 + r.Intn(100), 4090 + r.Intn(20)}[r.Intn(2)]
+		}
+		b := make([]byte, n)
 		r.Read(b)
 		return b
 	case 5:
